@@ -33,7 +33,7 @@ func generate(run *common.Run, n int) []*Case {
 }
 
 func (g *genCfg) genAny(id string) *Case {
-	switch x := g.rng.Intn(28); {
+	switch x := g.rng.Intn(30); {
 	case x < 8:
 		return g.genCall("s2h", id)
 	case x < 15:
@@ -60,6 +60,8 @@ func (g *genCfg) genAny(id string) *Case {
 		return g.genCondLoop(id)
 	case x < 26:
 		return g.genRepaired(id)
+	case x < 28:
+		return g.genDefineLoop(id)
 	}
 	return g.genVarCase(id)
 }
@@ -314,6 +316,58 @@ func (g *genCfg) genRepaired(id string) *Case {
 	c.VT = g.one("interface{}", "error", "fmt.Stringer")
 	vg := *g
 	c.V0, c.V1, c.V2 = vg.gen(c.VT, 0), vg.gen(c.VT, 0), vg.gen(c.VT, 0)
+	return c
+}
+
+// zeroVal: the zero value of one of the simple types used by genDefineLoop.
+func zeroVal(t *TypeD) *Val {
+	switch t.Kind {
+	case KPtr, KSlice, KMap, KIface, KFunc:
+		return &Val{T: t, Nil: true}
+	case KStruct:
+		v := &Val{T: t}
+		for _, f := range t.Fields {
+			v.Elts = append(v.Elts, zeroVal(f.T))
+		}
+		return v
+	}
+	return &Val{T: t}
+}
+
+// genDefineLoop: a host function with 2..3 results called through `q0, q1 := hp.F(…)` executed several times in ONE frame (a loop),
+// a pointer to / a closure over each declared variable kept after every execution and read when the loop is over. The callee
+// returns its arguments; the arguments are drawn so that zero values (0, "", false, nil, zero struct) occur.
+func (g *genCfg) genDefineLoop(id string) *Case {
+	r := g.rng
+	n := 2 + r.Intn(2)
+	var ts []*TypeD
+	for i := 0; i < n; i++ {
+		ts = append(ts, g.one("int", "int", "string", "bool", "float64", "hp.Pt", "*hp.Pt", "[]int", "hp.Color", "interface{}", "error", "uint8", "map[string]int"))
+	}
+	c := g.call("s2h", id, funcType(ts, ts, false))
+	c.Body.Muts = nil
+	c.Body.Rets = nil
+	for i := range ts {
+		c.Body.Rets = append(c.Body.Rets, &Expr{Op: "p", I: i})
+	}
+	c.Ctx = "defineloop"
+	c.Callee = []string{"", "", "", "fnvar", "fntyped"}[r.Intn(5)]
+	for i := 0; i < n; i++ {
+		c.Capture = append(c.Capture, []string{"ptr", "closure", "ptr", "closure", "none"}[r.Intn(5)])
+	}
+	vg := *g
+	vg.noFuncs = true
+	for k := 2 + r.Intn(4); k > 0; k-- {
+		var it []*Val
+		for _, t := range ts {
+			if r.Intn(2) == 0 {
+				it = append(it, zeroVal(t))
+			} else {
+				it = append(it, vg.gen(t, 1))
+			}
+		}
+		c.Iters = append(c.Iters, it)
+	}
 	return c
 }
 
